@@ -43,6 +43,17 @@ def plan(tier):
                     ({"max_tries": 3, "rerun_status": "fail"}, "mt=3,rerun=fail"), ({"max_tries": 2}, "mt=2")):
         p.append((S.T1("net1 net2", shared=S.VM1_CHAIN, params=pr, D=(1.0, 3.0), O=("PASS", "FAIL")).variant(f"/2workers,leaf-only,{tag}"), 2 if q else 3, 1))
         p.append((S.T2("net1 net2", shared=S.VM1_CHAIN[:2], params=pr, D=(1.0, 3.0), O=("PASS", "FAIL")).variant(f"/2workers,{tag}"), 1 if q else 2, 1))
+    # the same rules under every worker kind / reuse scope / slot binding (results are shared within a reuse scope only)
+    for pr, tag in (({"max_tries": 3, "stop_status": "pass"}, "mt=3,stop=pass"), ({"max_tries": 2, "rerun_status": "fail"}, "mt=2,rerun=fail")):
+        p += [(scn.variant("," + tag), k, w) for scn, k, w in
+              S.config_matrix(lambda nets, **kw: S.T2(nets, shared=S.VM1_CHAIN[:2], D=(1.0, 3.0), O=("PASS", "FAIL"), **kw), tier, k_quick=1, k_thorough=2,
+                              extra_params=pr)]
+    # retries of the two-step object creation: the configuration step (or the installation) failing on some or all workers
+    for mt in (2, 3):
+        for pat, tag in ((r"stateless\.noop", "creation-pre-step"), (r"unattended_install", "install")):
+            p.append((S.T1("net1 net2", params={"max_tries": mt}, persistent=(pat, "FAIL"), D=(1.0, 3.0), O=("PASS", "FAIL")).variant(f"/2workers,persistent FAIL of {tag},mt={mt}"),
+                      1 if q else 2, 0.5))
+        p.append((S.T1("net1 net2", params={"max_tries": mt}, D=(1.0, 3.0), O=("PASS", "FAIL")).variant(f"/2workers,creation,mt={mt}"), 2 if q else 3, 1))
     # invalid settings are rejected
     for key, val in (("max_tries", "-1"), ("max_tries", "abc"), ("max_tries", "1.5"), ("rerun_status", "pass bogus"), ("stop_status", "failed"),
                      ("rerun_status", "PASS")):
